@@ -256,7 +256,8 @@ def generate(repo):
                 body = """    const N: usize = %d;
     const W: usize = %d;
     let data: [u8; N] = kani::any();
-    let len = N;
+    // exactly the bytes of the value, or one spare byte behind it (the boundary of the "enough bytes" test)
+    let len = W + any_len(1);
     %s
     kani::assume(len - start >= W);
     let rem = b.remaining();
@@ -277,13 +278,15 @@ def generate(repo):
         assert!(b.chunk()[0] == data[start + W]);
     }
     kani::cover!(rem > W, "value followed by a spare byte");
+    kani::cover!(rem == W, "exactly the value remains");
     end_reached!();""" % (N, W, IMPLS[im], c["ty"], ref_expr(c), ne_guard, g, eqbits(c, "got", "exp"), tg, eqbits(c, "v", "exp"))
             else:
                 body = """    const N: usize = %d;
     const W: usize = 8;
     let data: [u8; N] = kani::any();
-    let len = N;
     let nb = any_len(8);
+    // exactly nb bytes, or one spare byte behind them
+    let len = nb + any_len(1);
     %s
     kani::assume(len - start >= nb);
     let rem = b.remaining();
@@ -303,6 +306,7 @@ def generate(repo):
     }
     kani::cover!(nb == 0, "zero width");
     kani::cover!(nb == 8, "full width");
+    kani::cover!(nb == 8 && rem == nb, "exactly nb bytes remain");
     kani::cover!(nb == 3 && m[%s] >= 0x80, "sign bit set in a 3-byte value");
     end_reached!();""" % (N, IMPLS[im], c["ty"], ref_expr(c), ne_guard, g, tg, "0" if c["endian"] == "be" else "2")
             out.append("%s// @h props=C10 tier=%s group=getters note=%s/%s_over_%s\n#[kani::proof]\n#[kani::unwind(%d)]\n#[kani::stub(core::slice::index::slice_index_fail, stub_slice_index_fail)]\npub fn %s() {\n%s\n}\n" % (
